@@ -1,6 +1,8 @@
 package maps
 
 import (
+	"strings"
+
 	vl "github.com/emirpasic/gods/v2/zzvlib"
 	v "github.com/emirpasic/gods/v2/zzvsup"
 )
@@ -23,6 +25,7 @@ type VKind struct {
 	Bidi    bool                    // one-to-one: Put also drops the pair that held the value (C10)
 	GetKey  func(x int) (int, bool) // bidi only
 	Inv     func()
+	Name    string // what String() begins with
 }
 
 func vIdx(seq []int, x int) int { // index of x in seq or -1, as a term
@@ -110,10 +113,16 @@ func VMapStep(m Map[int, int], keys, vals []int, kind VKind) {
 		wk, wv = []int{}, []int{}
 	case VOpObservers:
 	case VOpString:
-		_ = m.String()
+		v.BeginOp(true, m)
+		str := m.String()
+		v.EndOp()
+		v.Assert(strings.HasPrefix(str, kind.Name), "C15:string-begins-with-container-name")
 	}
 	kind.Inv()
+	v.BeginOp(true, m)
 	gk, gv := m.Keys(), m.Values()
+	_, _ = m.Size(), m.Empty()
+	v.EndOp()
 	v.Assert(len(gk) == len(wk), "C01,C10:keys-length")
 	v.Assert(len(gv) == len(wk), "C01,C10:values-length")
 	vl.Distinct(gk, "C01:key-listed-twice")
